@@ -6,7 +6,7 @@
    (radians); within_sky t u v  <->  great-circle angle(u, v) <= t  (C09_within_sky_is_angle). *)
 From Coq Require Import Reals QArith List.
 From EsVerif.Common Require Import Base.
-From EsVerif.C09 Require Import Gen Model Spec Geometry Proofs Rows Exec ExecProofs.
+From EsVerif.C09 Require Import Gen Model Spec Geometry Proofs Rows Isometry Exec ExecProofs.
 Open Scope R_scope.
 
 (* ---------------------------------------------------------------- meaning of the measured statements *)
@@ -57,12 +57,23 @@ Theorem C09_conversions_invertible : forall b s a d, valid_sel s ->
   within_sky tol5 (unit_deg (fst q) (snd q)) (unit_deg a d).
 Proof. exact rows_invertible. Qed.
 
-(* separations: cosines change by at most 1e-10, squared chords by a factor within 1 +- 1e-10
-   (partial: stated on the rotated vectors, not on the angle between the returned positions) *)
-Theorem C09_conversions_near_isometry_partial : forall b s, valid_sel s -> isometry_to eps_max (euler_lin (euler_row b s)).
+(* every conversion preserves the great-circle angle between any two points to 1e-5 degree,
+   measured between the returned positions (poles, antipodes and coincident points included) *)
+Theorem C09_conversions_preserve_separation : forall b s a1 d1 a2 d2, valid_sel s ->
+  let p := euler_R (euler_row b s) a1 d1 in
+  let q := euler_R (euler_row b s) a2 d2 in
+  Rabs (angle (unit_deg (fst p) (snd p)) (unit_deg (fst q) (snd q)) - angle (unit_deg a1 d1) (unit_deg a2 d2)) <= tol5.
+Proof. exact rows_preserve_angles. Qed.
+
+(* the great-circle angle is a metric on the unit sphere *)
+Theorem C09_angle_triangle : forall a b c, is_unit a -> is_unit b -> is_unit c -> angle a c <= angle a b + angle b c.
+Proof. exact angle_triangle. Qed.
+
+(* on the rotated vectors: cosines change by at most 1e-10, squared chords by a factor within 1 +- 1e-10 *)
+Theorem C09_conversions_near_isometry : forall b s, valid_sel s -> isometry_to eps_max (euler_lin (euler_row b s)).
 Proof. exact rows_near_isometry. Qed.
 
-Theorem C09_conversions_preserve_chords_partial : forall b s u v, valid_sel s ->
+Theorem C09_conversions_preserve_chords : forall b s u v, valid_sel s ->
   Rabs (chord2 (euler_lin (euler_row b s) u) (euler_lin (euler_row b s) v) - chord2 u v) <= eps_max * chord2 u v.
 Proof. exact rows_chord_preserved. Qed.
 
@@ -100,6 +111,12 @@ Theorem C09_rotate_isometry : forall phi theta psi ra1 dec1 ra2 dec2,
   dot (unit_deg (fst p) (snd p)) (unit_deg (fst q) (snd q)) = dot (unit_deg ra1 dec1) (unit_deg ra2 dec2).
 Proof. exact rotate_isometry. Qed.
 
+Theorem C09_rotate_preserves_separation : forall phi theta psi ra1 dec1 ra2 dec2,
+  let p := rotate_R phi theta psi ra1 dec1 in
+  let q := rotate_R phi theta psi ra2 dec2 in
+  angle (unit_deg (fst p) (snd p)) (unit_deg (fst q) (snd q)) = angle (unit_deg ra1 dec1) (unit_deg ra2 dec2).
+Proof. exact rotate_preserves_angles. Qed.
+
 Theorem C09_rotate_inverse : forall phi theta psi ra dec,
   let p := rotate_R phi theta psi ra dec in
   let q := rotate_R psi (- theta) phi (fst p) (snd p) in
@@ -114,6 +131,11 @@ Proof. exact xyz_unit_length. Qed.
 Theorem C09_xyz_is_rotated_direction : forall deg stomp ra dec,
   eq2xyz_R deg stomp ra dec = Rz (- (if stomp then sdss_node else 0)) (unit_rad (ang_in deg ra) (ang_in deg dec)).
 Proof. exact eq2xyz_unit. Qed.
+
+Theorem C09_xyz_preserves_separation : forall deg stomp ra1 dec1 ra2 dec2,
+  angle (eq2xyz_R deg stomp ra1 dec1) (eq2xyz_R deg stomp ra2 dec2)
+  = angle (unit_rad (ang_in deg ra1) (ang_in deg dec1)) (unit_rad (ang_in deg ra2) (ang_in deg dec2)).
+Proof. exact xyz_preserves_angles. Qed.
 
 Theorem C09_xyz_inverse : forall deg stomp v, 0 < norm2 v ->
   eq2xyz_R deg stomp (fst (xyz2eq_R deg stomp v)) (snd (xyz2eq_R deg stomp v)) = normalize v.
@@ -153,6 +175,12 @@ Theorem C09_sdss_inverse_sdss : forall cl ce, -90 <= cl <= 90 -> -180 <= ce <= 1
     sdss_unit (cl' * D2R) (ce' * D2R) = sdss_unit (cl * D2R) (ce * D2R).
 Proof. exact sdss_inverse_sdss. Qed.
 
+Theorem C09_sdss_preserves_separation : forall ra1 dec1 ra2 dec2 cl1 ce1 cl2 ce2,
+  eq2sdss_R ra1 dec1 = Ok (cl1, ce1) -> eq2sdss_R ra2 dec2 = Ok (cl2, ce2) ->
+  angle (sdss_unit (cl1 * D2R) (ce1 * D2R)) (sdss_unit (cl2 * D2R) (ce2 * D2R))
+  = angle (unit_deg ra1 dec1) (unit_deg ra2 dec2).
+Proof. exact sdss_preserves_angles. Qed.
+
 Theorem C09_sdss_rejects_out_of_range : forall ra dec,
   (ra < 0 \/ 360 < ra \/ dec < -90 \/ 90 < dec) -> eq2sdss_R ra dec = Err EValue.
 Proof. exact sdss_rejects. Qed.
@@ -160,6 +188,28 @@ Proof. exact sdss_rejects. Qed.
 (* rotations about z preserve separations (used with the two theorems above and C09_xyz_is_rotated_direction) *)
 Theorem C09_Rz_isometry : forall a u v, dot (Rz a u) (Rz a v) = dot u v.
 Proof. exact dot_Rz. Qed.
+
+(* ---------------------------------------------------------------- the model's formulas are the source's *)
+(* Gen.v carries the three vector components of each routine translated expression by expression
+   from the esutil/coords.py under test (harness/translate/c09_consts.py, straightline) *)
+Theorem C09_source_formula_euler : forall r a b,
+  euler_xyz_src (r_psi r) (r_st r) (r_ct r) (r_phi r) a b = Some (euler_xyz r a b).
+Proof. exact euler_src_ok. Qed.
+
+Theorem C09_source_formula_rotate : forall phi theta psi ra dec,
+  rotate_xyz_src phi theta psi ra dec = Some (euler_xyz (rotate_row phi theta psi) ra dec).
+Proof. exact rotate_src_ok. Qed.
+
+Theorem C09_source_formula_eq2xyz : forall (deg stomp : bool) (ra dec : R),
+  thetaphi2xyz_xyz_src (ang_in deg ra - (if stomp then sdss_node else 0)) (ang_in deg dec)
+  = Some (eq2xyz_R deg stomp ra dec).
+Proof. exact thetaphi_src_ok. Qed.
+
+Theorem C09_source_formula_sdss2eq : forall cl ce, sdss2eq_xyz_src cl ce = Some (sdss_unit (cl * D2R) (ce * D2R)).
+Proof. exact sdss2eq_src_ok. Qed.
+
+Theorem C09_source_formula_eq2sdss : forall ra dec, eq2sdss_xyz_src ra dec = Some (eq2sdss_xyz ra dec).
+Proof. exact eq2sdss_src_ok. Qed.
 
 (* ---------------------------------------------------------------- shiftlon / shiftra (exact rationals) *)
 Theorem C09_shiftlon_spec : forall lon shift wrap, lon_valid lon ->
